@@ -1,0 +1,57 @@
+//go:build verif
+
+package nsqd
+
+import (
+	"net"
+	"sync/atomic"
+	"time"
+)
+
+// verifClientByAddr finds the V2 client whose connection's remote address (as the
+// server sees it) is remoteAddr.
+func (n *NSQD) verifClientByAddr(remoteAddr string) *clientV2 {
+	var found *clientV2
+	n.tcpServer.conns.Range(func(k, v interface{}) bool {
+		if a, ok := k.(net.Addr); ok && a.String() == remoteAddr {
+			if c, ok := v.(*clientV2); ok {
+				found = c
+				return false
+			}
+		}
+		return true
+	})
+	return found
+}
+
+// VerifShiftAuthExpiry makes d of "time pass" for the cached auth answer of one client:
+// its AuthState.Expires moves d earlier, which is what IsExpired would see had the clock
+// advanced by d.  The caller must only use it while the client is idle (its IOLoop is
+// blocked reading the next command).  Reports whether the client exists and whether it
+// has a cached answer.
+func (n *NSQD) VerifShiftAuthExpiry(remoteAddr string, d time.Duration) (found bool, hasState bool) {
+	c := n.verifClientByAddr(remoteAddr)
+	if c == nil {
+		return false, false
+	}
+	if c.AuthState == nil {
+		return true, false
+	}
+	c.AuthState.Expires = c.AuthState.Expires.Add(-d)
+	return true, true
+}
+
+// VerifClientGate reports the gate-relevant fields of one client: the TLS flag, whether
+// an auth answer is cached, how many authorizations it has and the time left until it
+// expires.
+func (n *NSQD) VerifClientGate(remoteAddr string) (found bool, tls bool, hasState bool, auths int, left time.Duration) {
+	c := n.verifClientByAddr(remoteAddr)
+	if c == nil {
+		return false, false, false, 0, 0
+	}
+	tls = atomic.LoadInt32(&c.TLS) == 1
+	if c.AuthState != nil {
+		return true, tls, true, len(c.AuthState.Authorizations), time.Until(c.AuthState.Expires)
+	}
+	return true, tls, false, 0, 0
+}
